@@ -191,7 +191,9 @@ Definition benign_sites : list listed := [
   mkListed "functions.go" "MergeFuncMap" 0 "f" EarlyExitFirstMatch
     "the early exit is the duplicate-name panic; with a duplicate every construction of an interpreter panics, so in a working build it never fires and the rest is a fill under the walk key";
   mkListed "gotypereg.go" "GoStructRegistryType.EnvAvail" 0 "r.LazyFunc" CallsOnly
-    "dead code: package zygo never calls EnvAvail nor LazyAddFunction"
+    "dead code: package zygo never calls EnvAvail nor LazyAddFunction";
+  mkListed "builders.go" "SexpHash.valueStoredUnder" 0 "hash.Map" EarlyExitFirstMatch
+    "lookup by key-OBJECT identity (pair.Head == key) for printing keys HashGet cannot compare: a key object is the Head of at most one stored pair (HashSet replaces the pair of an equal key, every insertion makes a new pair), so the first match is the only match (unique_match_indep); no match returns the constant SexpNull"
 ].
 
 (* walks that ARE order-dependent in the code as it is: the known findings (KNOWN_FINDINGS.txt) *)
